@@ -14,7 +14,8 @@ CONSTANTS Configs,        \* set of daemon configurations (cfg records)
           DieStatuses,    \* wait statuses of spontaneous deaths
           ObeyChoices,    \* behaviours of new workers: TRUE obeys fatal signals, FALSE only SIGKILL kills it
           FaultSeqs,      \* set of spawn-fault sequences
-          Reduce          \* TRUE: deaths/sigdeaths only between callbacks or just before a kernel call
+          Reduce,         \* TRUE: a death is placed only where it can be observed next (see ObservedNext)
+          ReqUntil, DieUntil   \* the environment stops sending requests / killing workers after these ticks
 
 VARIABLES s, g, bad, n
 
@@ -83,7 +84,7 @@ Observe(t) ==
   ELSE LET ln == IF t.out.k = "probe" THEN MLine(s, t) @@ [pb |-> ProbeOf(t)] ELSE MLine(s, t)
            o == MObs(s) o2 == MObs(t)
            g2 == M!Upd(g, o, ln, o2)
-       IN g' = g2 /\ bad' = M!Bad(g, o, ln, o2, g2)
+       IN g' = g2 /\ bad' = M!BadKF(g, o, ln, o2, g2)
 
 Step(t) == s' = t /\ Observe(t)
 
@@ -91,6 +92,14 @@ KernelNext(st) ==      \* is the next daemon step a system call on some pid?  (u
   TRUE
 
 CanDie(p) == s.k[p].st = "run"
+\* Partial-order reduction: a worker's death commutes with every daemon step that does not look at that
+\* worker, so inside a callback it is enough to place it immediately before the next system call on that pid
+KernelKinds == {"status", "poll", "signal", "waitpid", "children", "csignal"}
+ObservedNext(p) ==
+  IF s.cur = <<>> THEN s.rq = <<>>
+  ELSE \E ob \in (ObeyChoices \cap s.cfg.obeyset) : LET t == RunTop(s, ob) IN
+          \/ (t.out.k \in KernelKinds /\ t.out.p = p)
+          \/ t.out.k = "waitany"
 Quiescent == s.cur = <<>> /\ s.rq = <<>> /\ ~s.cbpend
 
 Next ==
@@ -98,7 +107,7 @@ Next ==
   \/ /\ ~MustSettle(s) /\ s.cbpend /\ Step(CbLine(s)) /\ UNCHANGED n
   \/ /\ ~MustSettle(s) /\ ~s.cbpend
      /\ \/ /\ s.cur # <<>>
-           /\ \E ob \in ObeyChoices : Step(RunTop(s, ob))
+           /\ \E ob \in (ObeyChoices \cap s.cfg.obeyset) : Step(RunTop(s, ob))
            /\ UNCHANGED n
         \/ /\ s.cur = <<>> /\ s.rq # <<>> /\ Step(RunCb(s)) /\ UNCHANGED n
         \/ /\ Quiescent /\ ~s.booted /\ Step(Boot(s)) /\ UNCHANGED n
@@ -111,15 +120,17 @@ Next ==
               \/ Step(EnvLine(s, Line("probe", "", 0, 0, "", "")))
            /\ UNCHANGED n
         \* ---- environment
-        \/ /\ s.cur = <<>> /\ s.booted /\ ~s.exited /\ s.nreq < MaxReq
-           /\ \E q \in Requests : Step(Request(s, [q EXCEPT !.mid = "m"], "c"))
+        \/ /\ s.cur = <<>> /\ (Reduce => s.rq = <<>>) /\ s.booted /\ ~s.exited /\ s.nreq < MaxReq /\ s.now <= ReqUntil
+           /\ \E q \in Requests : Step(Request(s, [q EXCEPT !.mid = "m" \o ToString(s.nreq + 1)],
+                                                 "c" \o ToString(s.nreq + 1)))
            /\ UNCHANGED n
-        \/ /\ n.die < MaxDie /\ (Reduce => s.cur = <<>>)
-           /\ \E p \in 1..NP(s), ws \in DieStatuses : CanDie(p) /\ s.k[p].par = 0 /\ Step(Die(s, p, ws))
+        \/ /\ n.die < MaxDie /\ s.now <= DieUntil
+           /\ \E p \in 1..NP(s), ws \in DieStatuses :
+                 CanDie(p) /\ s.k[p].par = 0 /\ (Reduce => ObservedNext(p)) /\ Step(Die(s, p, ws))
            /\ n' = [n EXCEPT !.die = @ + 1]
         \/ /\ ~Reduce /\ s.cur # <<>> /\ \E p \in Dying(s) : Step(SigDeath(s, p))
            /\ UNCHANGED n
-        \/ /\ n.ext < MaxExt /\ s.cur = <<>>
+        \/ /\ n.ext < MaxExt /\ s.cur = <<>> /\ s.rq = <<>> /\ s.now <= DieUntil
            /\ \E p \in 1..NP(s) : CanDie(p) /\ s.k[p].dying = 0 /\ Step(ExtKill(s, p, SIGKILL))
            /\ n' = [n EXCEPT !.ext = @ + 1]
         \/ /\ n.fork < MaxFork /\ s.cur = <<>> /\ NP(s) < MaxPid
@@ -133,9 +144,28 @@ Spec == Init /\ [][Next]_vars
 
 \* bound the state space: process table size
 PidBound == NP(s) <= MaxPid
-View == <<[s EXCEPT !.out = NoLine, !.nreq = 0], g, n>>
+View == <<[s EXCEPT !.out = NoLine], g, bad, n>>
 
-NoBad(c) == c \notin bad
+\* ---- one invariant per listed property: no clause of the property is violated, except with the signature of
+\* a recorded finding (the second component names it; "" = unexplained)
+Unexplained(cs) == { e \in bad : e[1] \in cs /\ e[2] = "" }
+Inv_C01 == Unexplained({"C01_range", "C01_converge", "C01_fixpoint", "C01_fresh"}) = {}
+Inv_C02 == Unexplained({"C02_complete", "C02_opdone", "C02_stays"}) = {}
+Inv_C03 == Unexplained({"C03_first", "C03_notearly", "C03_notdead", "C03_prompt", "C03_kids"}) = {}
+Inv_C04 == Unexplained({"C04_list", "C04_count", "C04_owned", "C04_status"}) = {}
+Inv_C05 == Unexplained({"C05_noblock", "C05_readnow", "C05_bound"}) = {}
+Inv_C06 == Unexplained({"C06_reply", "C06_status", "C06_all"}) = {}
+Inv_C08 == Unexplained({"C08_done"}) = {}
+Inv_C09 == Unexplained({"C09_spawn", "C09_reap", "C09_live", "C09_startstop"}) = {}
+Inv_C10 == Unexplained({"C10_wedge", "C10_refuse", "C10_accept"}) = {}
+Inv_C13 == Unexplained({"C13_wid"}) = {}
+Inv_C14 == Unexplained({"C14_startgate", "C14_siggate", "C14_events"}) = {}
+Inv_C15 == Unexplained({"C15_dir", "C15_views", "C15_addrm"}) = {}
+Inv_C18 == Unexplained({"C18_confine"}) = {}
+Inv_C19 == Unexplained({"C19_order", "C19_pace", "C19_auto"}) = {}
+\* C10 mutual exclusion, directly on the model: at most one exclusive operation frame is alive
+Inv_C10_mutex == Cardinality({ f \in FrameIds : s.fr[f].fn \in {"op", "manage_watchers"} /\ ~s.fr[f].done }) <= 1
+AnyBad == { e \in bad : e[2] = "" } = {}
 
 \* compact rendering of error traces
 Alias == [out |-> <<s.out.k, s.out.w, s.out.p, s.out.a, s.out.r, s.out.x>>, bad |-> bad, now |-> s.now,
